@@ -193,6 +193,12 @@ pub fn check(case: &Case, st: &mut Stats) -> Result<(), Violation> {
     st.evaluations += 1;
     match case {
         Case::Cbrt(xs) => {
+            for w in xs.windows(2) {
+                let (a, _, b) = (cbrtf(w[0]), cbrtf(w[1]), cbrtf(w[0]));
+                if a.to_bits() != b.to_bits() && !(a.is_nan() && b.is_nan()) {
+                    return Err(fail("cbrtf-impure", format!("cbrtf({:e}) returned {a:e} and, after another call, {b:e}", w[0]), Case::Cbrt(vec![w[0], w[1]])));
+                }
+            }
             for &x in xs {
                 if !x.is_normal() {
                     continue;
@@ -207,6 +213,21 @@ pub fn check(case: &Case, st: &mut Stats) -> Result<(), Violation> {
             st.nontrivial(&("cbrt", xs.iter().map(|x| x.to_bits()).collect::<Vec<_>>()));
         }
         Case::Pow(xys) => {
+            // purity: the helpers are functions of their arguments; interleaved repeated calls (same x with
+            // another y, same y with another x) must reproduce the first result bit for bit
+            for w in xys.windows(2) {
+                let ((x0, y0), (x1, y1)) = (w[0], w[1]);
+                if let Ok((a, b, c)) = catch(|| {
+                    let a = powf(x0, y0);
+                    let _ = (powf(x0, y1), powf(x1, y0), expf(y1), cbrtf(x1));
+                    (a, powf(x0, y0), expf(y0))
+                }) {
+                    let _ = c;
+                    if a.to_bits() != b.to_bits() && !(a.is_nan() && b.is_nan()) {
+                        return Err(fail("powf-impure", format!("powf({x0:e}, {y0:e}) returned {a:e} and, after other calls, {b:e}"), Case::Pow(vec![(x0, y0), (x1, y1)])));
+                    }
+                }
+            }
             let mut any = false;
             for &(x, y) in xys {
                 match check_pow_one(x, y) {
@@ -225,6 +246,12 @@ pub fn check(case: &Case, st: &mut Stats) -> Result<(), Violation> {
             }
         }
         Case::Exp(xs) => {
+            for w in xs.windows(2) {
+                let (a, _, b) = (expf(w[0]), expf(w[1]), expf(w[0]));
+                if a.to_bits() != b.to_bits() && !(a.is_nan() && b.is_nan()) {
+                    return Err(fail("expf-impure", format!("expf({:e}) returned {a:e} and, after another call, {b:e}", w[0]), Case::Exp(vec![w[0], w[1]])));
+                }
+            }
             let mut any = false;
             for &x in xs {
                 match check_exp_one(x) {
@@ -288,7 +315,18 @@ fn normal_pos() -> impl Strategy<Value = f32> {
 pub fn strategy() -> BoxedStrategy<Case> {
     prop_oneof![
         2 => prop::collection::vec((0x0080_0000u32..0x7F80_0000, any::<bool>()).prop_map(|(b, s)| f32::from_bits(b | if s { 0x8000_0000 } else { 0 })), 1..256).prop_map(Case::Cbrt),
-        3 => prop::collection::vec((normal_pos(), prop_oneof![(-80.0f32..=80.0), (0usize..12).prop_map(|i| LIB_EXPONENTS[i]), (-3.0f32..3.0)]), 1..256).prop_map(Case::Pow),
+        3 => (prop::collection::vec((normal_pos(), prop_oneof![(-80.0f32..=80.0), (0usize..12).prop_map(|i| LIB_EXPONENTS[i]), (-3.0f32..3.0)]), 1..256), any::<u64>()).prop_map(|(mut v, seed)| {
+            // related neighbours: keep x or y of the previous pair in a third of the positions
+            let mut e = Expand(seed);
+            for i in 1..v.len() {
+                match e.below(6) {
+                    0 => v[i].0 = v[i - 1].0,
+                    1 => v[i].1 = v[i - 1].1,
+                    _ => {}
+                }
+            }
+            Case::Pow(v)
+        }),
         2 => prop::collection::vec(prop_oneof![(-85.0f32..=85.0), (89.0f32..=1e38), (-1e38f32..=-88.0), (-100.0f32..100.0), any::<u32>().prop_map(f32::from_bits)], 1..256).prop_map(Case::Exp),
         2 => prop::collection::vec((any_f32_bits(), any_f32_bits()), 1..128).prop_map(Case::Total),
     ]
@@ -440,4 +478,4 @@ pub fn replay(v: &Value) -> Result<(), String> {
     check(&case_from_json(v).ok_or("bad case")?, &mut Stats::new()).map_err(|v| v.message)
 }
 
-pub const RULE: &str = "cases = batches for one of: cbrtf (normal f32, both signs), powf ((x,y): x positive normal uniform in bit pattern / at exponent boundaries +-4 ulp / in (0,1) / near 1; y in [-80,80], the 12 exponents the library uses, small y), expf ([-85,85], [89,1e38], [-1e38,-88], arbitrary bits), totality (all 24x24 pairs of special values, random bit patterns for both arguments of cbrtf/powf/expf) generated by proptest, plus strided (quick) or complete (thorough) enumerations: cbrtf over all normal magnitudes, powf over all positive normal x for each library exponent, expf over all 2^32 patterns; oracle = f64 libm with the statement's bounds (builds without fastmath: 2 ulp of libm); a panic (incl. the verif hook before to_int_unchecked) is a violation; non-trivial = batch with at least one compared value; distinct = by hash of argument bits";
+pub const RULE: &str = "cases = batches for one of: cbrtf (normal f32, both signs), powf ((x,y): x positive normal uniform in bit pattern / at exponent boundaries +-4 ulp / in (0,1) / near 1; y in [-80,80], the 12 exponents the library uses, small y), expf ([-85,85], [89,1e38], [-1e38,-88], arbitrary bits), totality (all 24x24 pairs of special values, random bit patterns for both arguments of cbrtf/powf/expf) generated by proptest, plus strided (quick) or complete (thorough) enumerations: cbrtf over all normal magnitudes, powf over all positive normal x for each library exponent, expf over all 2^32 patterns; interleaved repeated calls must reproduce the first result bitwise (purity); oracle = f64 libm with the statement's bounds (builds without fastmath: 2 ulp of libm); a panic (incl. the verif hook before to_int_unchecked) is a violation; non-trivial = batch with at least one compared value; distinct = by hash of argument bits";
